@@ -92,6 +92,7 @@ class MiniEval(object):
         self.cls = cls_info
         self.module = module
         self.depth = 0
+        self.oracle = None        # {'lt': bool, 'eq': bool} for `self < other` / `self == other` on wrapped values
 
     # -- statements
     def run(self, fn, env):
@@ -255,6 +256,8 @@ class MiniEval(object):
         return out
 
     def lt(self, l, r):
+        if self.oracle is not None and l.kind == 'cmp':
+            return Val('const', 'bool', self.oracle['lt'])
         if l.kind == 'const' and r.kind == 'const' and isinstance(l.inner, str) and isinstance(r.inner, str):
             return Val('const', 'bool', l.inner < r.inner)
         if l.kind == 'raw' and r.kind == 'raw':
@@ -262,6 +265,8 @@ class MiniEval(object):
         raise _Undecidable('< between %r and %r' % (l, r))
 
     def eq(self, l, r):
+        if self.oracle is not None and l.kind == 'cmp':
+            return Val('const', 'bool', self.oracle['eq'])
         if l.kind == 'raw' and r.kind == 'raw':
             return Val('const', 'native', native_eq(l.pytype, r.pytype))
         if l.kind == 'cmp' and r.kind == 'cmp':
@@ -463,7 +468,7 @@ def r42(ctx, rep):
             rets = [n for n in own_nodes(fn.node) if isinstance(n, ast.Return)]
             body = [s for s in fn.node.body if not (isinstance(s, ast.Expr) and isinstance(s.value, ast.Constant))]
             if len(body) != 1 or not isinstance(body[0], ast.Return) or body[0].value is None:
-                rep.undecided('R4.2', fn, name, 'body is not a single return expression', fn.node)
+                _derived_table(ctx, rep, ci, fn, name, f)
                 continue
             expr = body[0].value
             atoms = atoms_of(expr)
@@ -504,6 +509,43 @@ def r42(ctx, rep):
                 rep.violated('R4.2', fn, name, '%s.%s must be `self.key %s other.key`'
                              % (ci.name, name, {ast.Eq: '==', ast.Lt: '<', ast.LtE: '<=', ast.NotEq: '!=', ast.Gt: '>', ast.GtE: '>='}[op]),
                              fn.node)
+
+
+def _derived_table(ctx, rep, ci, fn, name, f):
+    """A derived operator with a body of its own (fast paths, early returns):
+    evaluate it for every pair of type classes, right operand wrapped and
+    unwrapped, with `self < other` and `self == other` taking the values the
+    stated order gives them (all three outcomes inside one native family), and
+    compare with the stated function of < and ==."""
+    me = MiniEval(ctx, ci, ci.module)
+    bad = []
+    ncell = 0
+    try:
+        for x, y, wrapped in itertools.product(TYPES, TYPES, (True, False)):
+            slt, seq = spec_lt(x, y), spec_eq(x, y)
+            cases = [(slt, seq)] if slt != 'NATIVE' else [(True, False), (False, True), (False, False)]
+            for lt, eq in cases:
+                me.oracle = {'lt': lt, 'eq': eq}
+                env = {'self': wrap(x), 'other': wrap(y) if wrapped else raw(y)}
+                try:
+                    v = me.run(fn, env)
+                    got = bool(v.inner) if v.kind == 'const' else None
+                    if v.kind != 'const':
+                        raise _Undecidable('returns %r' % v)
+                except _PyTypeError:
+                    got = 'TypeError'
+                ncell += 1
+                if got != f(lt, eq):
+                    bad.append('Comparable(%s) %s %s with <:%s ==:%s gives %s' % (
+                        x, name, ('Comparable(%s)' % y) if wrapped else y, lt, eq, got))
+    except _Undecidable as e:
+        rep.undecided('R4.2', fn, name, 'cannot evaluate the body: %s' % e, fn.node)
+        return
+    if bad:
+        rep.violated('R4.2', fn, name, '%s is not the stated function of < and == in %d of %d cells, e.g. %s'
+                     % (name, len(bad), ncell, '; '.join(bad[:3])), fn.node)
+    else:
+        rep.held('R4.2', fn, name, 'agrees with the stated function of < and == in all %d cells' % ncell, fn.node)
 
 
 # ------------------------------------------------------------------------ R4.3
